@@ -584,3 +584,6 @@ def directions(chk, repo):
                           "isinstance(arg, str))))", ds))
     chk.ob("R16.7", T + ".mbx_send", "the length field counts the formatted "
            "fields plus the data", ok, f, "datasize(args, data)")
+
+# added rules (appended to the explanation the evidence file carries)
+EXPLANATION += (" " + "Added during the build (DESIGN.md 4.31, second table): (R16.7) in mbx_send every path from 'mail pending' to the mailbox write passes mbx_recv().")
